@@ -1014,8 +1014,9 @@ func (s *State) evalForInteger(fe *ast.ForExpression, start *int64, end int64, n
 				return s.Errorf("for loop unexpected control type %s", r.ControlType.String())
 			}
 		default:
-			// Copy: the loop variable's register is released (and reused) once the loop is done.
-			lastEval = object.CopyRegister(nextEval)
+			// Copy: the loop variable's register is released (and reused) once the loop is done, and a
+			// reference to a variable of an outer scope would be read after later iterations changed it.
+			lastEval = object.Value(nextEval)
 		}
 	}
 	return lastEval
@@ -1095,7 +1096,7 @@ func (s *State) evalForList(fe *ast.ForExpression, list object.Object, name stri
 				return s.Errorf("for loop unexpected control type %s", r.ControlType.String())
 			}
 		default:
-			lastEval = nextEval
+			lastEval = object.Value(nextEval) // not a reference that later iterations can change.
 		}
 	}
 	return lastEval
@@ -1131,7 +1132,7 @@ func (s *State) evalForExpression(fe *ast.ForExpression) object.Object {
 					return r
 				}
 			default:
-				lastEval = nextEval
+				lastEval = object.Value(nextEval) // not a reference that later iterations can change.
 			}
 		case object.FALSE, object.NULL:
 			if log.LogVerbose() {
